@@ -453,6 +453,7 @@ func C35(c *Ctx) {
 	const r4 = "K2.table-cut-at-key-boundary"
 	tableCutGroup(c, r4)
 	seekGapGroup(c, "K2.seek-continues-into-next-block")
+	versionAccumulatorGroup(c, "K2.version-accumulator-orderings")
 	const r5 = "K2.block-switch-resets-decode-state"
 	c.Rule(r5, "blockIterator.setIdx decodes prefix-compressed keys incrementally: the fields it both reads and writes (state carried from the previous entry: idx, baseKey, key, prevOverlap) describe the previous block's entry; blockIterator.setBlock (directly or through a helper) re-initialises every one of them, so the first decode in a new block never reuses bytes of the old block")
 	if si := c.Fn("lsm", "blockIterator.setIdx"); si != nil {
